@@ -73,3 +73,39 @@ Theorem C19_prefix_then_text_given_locality : forall uw ud P src n itemsP items 
   lex uw ud (P ++ src) = Ok (itemsP ++ map (sh_item n (List.length P)) items, shl n (List.length P) xf).
 Proof. exact prefix_then_text_given_locality. Qed.
 Print Assumptions C19_prefix_then_text_given_locality.
+
+(* ---- the composition made unconditional for prefixes of one-line block comments, and for the 42 header
+   (Proofs/CommentLines.v, Proofs/HeaderLex.v): the steps inside such a prefix never look past its end *)
+From NV Require Import Proofs.CommentLines Proofs.HeaderLex.
+Theorem C19_comment_line_steps : forall uw ud body r o l c e, body_ok body = true ->
+  step uw ud (mkst (47%N :: 42%N :: body ++ 42%N :: 47%N :: 10%N :: r) o l c e) =
+    StepItem (ITok (mktok MULT_COMMENT l c (Some (comment_text body))) o (o + List.length body + 4)%nat)
+             (mkst (10%N :: r) (o + List.length body + 4)%nat l (c + Z.of_nat (List.length body) + 4) e) /\
+  step uw ud (mkst (10%N :: r) (o + List.length body + 4)%nat l (c + Z.of_nat (List.length body) + 4) e) =
+    StepItem (ITok (mktok NEWLINE l (c + Z.of_nat (List.length body) + 4) None) (o + List.length body + 4)%nat (o + List.length body + 4 + 1)%nat)
+             (mkst r (o + List.length body + 4 + 1)%nat (l + 1) 1 e).
+Proof. intros uw ud body r o l c e Hb. split; [exact (step_comment uw ud body (10%N :: r) o l c e Hb)|apply step_newline]. Qed.
+Print Assumptions C19_comment_line_steps.
+
+Theorem C19_comment_lines_then_text : forall uw ud bs src items xf, forallb body_ok bs = true ->
+  lex uw ud src = Ok (items, xf) ->
+  lex uw ud (comment_lines bs ++ src) =
+    Ok (comment_items 0 1 bs ++ map (sh_item (Z.of_nat (List.length bs)) (List.length (comment_lines bs))) items,
+        shl (Z.of_nat (List.length bs)) (List.length (comment_lines bs)) xf).
+Proof. exact lex_comment_lines_then_text. Qed.
+Print Assumptions C19_comment_lines_then_text.
+
+Theorem C19_comment_lines_local : forall uw ud bs src o l e fuel, forallb body_ok bs = true ->
+  steps_local uw ud src fuel (mkst (comment_lines bs) o l 1 e).
+Proof. exact comment_lines_local. Qed.
+Print Assumptions C19_comment_lines_local.
+
+Theorem C19_header_then_text_lexed : forall uw ud f src items xf, fields_lex_ok f = true ->
+  lex uw ud src = Ok (items, xf) ->
+  lex uw ud (lines_text (template f) ++ src) =
+    Ok (comment_items 0 1 (template_mids f) ++ map (sh_item 11 (List.length (lines_text (template f)))) items,
+        shl 11 (List.length (lines_text (template f))) xf).
+Proof. exact header_then_text_lexed. Qed.
+Print Assumptions C19_header_then_text_lexed.
+
+
